@@ -176,6 +176,9 @@ def main_c27():
     rnd = random.Random(c.args.seed * 7919 + c.args.shard)
     ncases = 700 if c.args.tier == "quick" else 40000
     for i in range(ncases):
+        if c.time_up():
+            c.count("cases_not_run_time_budget", ncases - i)
+            break
         size = rnd.choice([1, 3, 10, 30, 60, 120, 250])
         t = gen_tree(rnd, size, share=rnd.random() < 0.7)
         if count_nodes(t) >= 60000:
@@ -309,6 +312,9 @@ def main_c28():
         "ff0eff02ff05ff0b80",      # (concat 2 5 11)
     )]
     for i in range(ncurry):
+        if c.time_up(3.0):
+            c.count("curry_cases_not_run_time_budget", ncurry - i)
+            break
         mod = rnd.choice(mods)
         nargs = rnd.randrange(0, 4)
         args = [gen_tree(rnd, rnd.choice([1, 2, 5]), share=False) if rnd.random() < 0.3 else bytes(rnd.getrandbits(8) for _ in range(rnd.choice([0, 1, 2, 32]))) for _ in range(nargs)]
